@@ -84,7 +84,7 @@ def shapes():
     return out
 
 
-def _job(shape):
+def _job(shape, world_cls=None):
     seq = isinstance(shape.t, tuple) and shape.t[0] == "after"
     if seq:
         first_t, second_t = shape.t[1], shape.t[2]
@@ -116,7 +116,7 @@ def _job(shape):
         if n == 0:
             return proc.ProcResult(shape, "vacuous", "no assignment evaluated")
         return proc.ProcResult(shape, "valid", "%d assignments" % n, sc.node_str(w, r))
-    res = proc.run_proc(shape, call, post=post, services="full")
+    res = proc.run_proc(shape, call, post=post, services="full", world_cls=world_cls)
     return [(getattr(shape, "tag", None) or repr(shape), r.kind, str(r.detail), r.result) for r in res]
 
 
